@@ -181,7 +181,7 @@ def gen(rng, tier):
       ops.append({'op': 'invalid', 'kind': rng.choice(
           ['bad_name', 'bad_module', 'duplicate_other', 'duplicate_equal',
            'unknown_in_list', 'both_lists', 'non_list',
-           'class_with_regmethod_bad_list']),
+           'class_with_regmethod_bad_list', 'rejected_then_new']),
                   'n': i,
                   'target': 'T%d' % rng.randint(0, i)})
     elif r < 0.55:
@@ -445,6 +445,23 @@ def run(case):
         elif kind == 'unknown_in_list':
           gin.external_configurable(fresh_fn('Zq'), name='Zq',
                                     allowlist=['a', 'nope'])
+        elif kind == 'rejected_then_new':
+          # A registration is rejected after gin has looked at the signature;
+          # the function is dropped and another one is created right away
+          # (CPython hands it the same memory): its list must be checked
+          # against ITS signature.
+          import gc
+          g1 = {'__name__': MOD}
+          exec('def Zq(y=1, z=2):\n  return y\n', g1)  # pylint: disable=exec-used
+          try:
+            gin.external_configurable(g1.pop('Zq'), name='Zq', allowlist=['nope'])
+          except Exception:  # pylint: disable=broad-except
+            pass
+          g1.clear()
+          gc.collect()
+          g2 = {'__name__': MOD}
+          exec('def Zq(a=1, b=2):\n  return a\n', g2)  # pylint: disable=exec-used
+          gin.external_configurable(g2['Zq'], name='Zq', allowlist=['y'])
         elif kind == 'class_with_regmethod_bad_list':
           # A class whose method is registered already; the class registration
           # is rejected for its list and must leave the method where it was.
